@@ -736,15 +736,17 @@ def load_seeds():
         q = dns.message.make_query("www.example.", "A", use_edns=0, payload=1232, options=[
             dns.edns.ECSOption("1.2.3.0", 24), dns.edns.GenericOption(65001, b"abc"), dns.edns.EDEOption(3, "stale"),
             dns.edns.NSIDOption(b"nsid"), dns.edns.CookieOption(b"12345678", b""), dns.edns.ReportChannelOption(dns.name.from_text("agent.example."))])
+        q.id = 0x1111
         out.append(q.to_wire())
         q2 = dns.message.make_query("www.example.", "MX")
+        q2.id = 0x2222
         q2.use_tsig(keyring(), "keyname.")
         out.append(q2.to_wire())
         r = dns.message.make_response(q2)
         r.answer.append(dns.rrset.from_text("www.example.", 300, "IN", "MX", "10 mail.example.", "20 mail2.example."))
         r.use_tsig(keyring(), "keyname.")
         out.append(r.to_wire())
-        u = U.UpdateMessage("example.")
+        u = U.UpdateMessage("example.", id=0x3333)
         u.present("a")
         u.absent("b", "A")
         u.add("c", 300, "A", "10.0.0.1")
@@ -753,12 +755,12 @@ def load_seeds():
         u.delete("f", "A", "10.0.0.2")
         u.replace("g", 300, "TXT", '"x y"')
         out.append(u.to_wire())
-        x = dns.message.make_response(dns.message.make_query("example.", "AXFR"))
+        x = dns.message.make_response(dns.message.make_query("example.", "AXFR", id=0x4444))
         soa = dns.rrset.from_text("example.", 300, "IN", "SOA", "ns1.example. hostmaster.example. 1 2 3 4 5")
         x.answer += [soa, dns.rrset.from_text("a.example.", 300, "IN", "A", "10.0.0.1"),
                      dns.rrset.from_text("example.", 300, "IN", "NS", "ns1.example."), soa]
         out.append(x.to_wire())
-        big = dns.message.make_response(dns.message.make_query("big.example.", "ANY"))
+        big = dns.message.make_response(dns.message.make_query("big.example.", "ANY", id=0x5555))
         for rc, rt, tx, _w in s.rdatas[:60]:
             if tx and rc == 1:
                 try:
